@@ -4,7 +4,7 @@ from notes/hunt/TRIAGE.md (the triage of the round-4 defect hunt against the tre
 and the FIXED_SINCE table below (findings repaired after the triage, with their defect ids)."""
 import re
 FIXED_SINCE = {
- 'C02/finding10':'D43','C04/finding4':'D44','C04/finding9':'D45','C11/finding2':'D46','C02/finding4':'D47','C09/finding7':'D47',
+ 'C01/finding5':'D70','C02/finding1':'D70','C03/finding1':'D70', 'C01/finding4':'D70', 'C12/finding5':'D69', 'C04/finding10':'D68', 'C02/finding10':'D43','C04/finding4':'D44','C04/finding9':'D45','C11/finding2':'D46','C02/finding4':'D47','C09/finding7':'D47',
  'C02/finding6':'D48','C02/finding12':'D49','C02/finding5':'D50','C09/finding4':'D52','C17/finding2':'D53','C19/finding3':'D54',
  'C20/finding5':'D55','C09/finding3':'D56','C04/finding3':'D57','C03/finding3':'D58','C04/finding7':'D58','C01/finding6':'D59','C02/finding2':'D59',
  'C01/finding2':'D60','C06/finding2':'D64','C09/finding8':'D65','C20/finding1':'D67','C10/finding6':'D61','C10/finding4':'D62','C19/finding4':'D63','C02/finding3':'D60 (unary half; the client-streaming REST mapping still concatenates JSON documents)',
